@@ -51,3 +51,30 @@ fn c14_poll_infinite() {
     let _ = nio.poll(None, std::ptr::null_mut(), 0, t);
     kani::assert(false, "C14.poll_negative_timeout_never_returns_while_nothing_is_ready");
 }
+
+/// recorder without the round bound of `wait_event_stub`: the unit below is bounded by its unwind value instead
+fn wait_event_long_stub(t: Option<std::time::Duration>) -> std::io::Result<()> {
+    unsafe {
+        WAIT_CALLS += 1;
+        match t { Some(d) => { WAITED_MS_P += d.as_millis() as u64; } None => { WAIT_NONE = true; } }
+    }
+    Ok(())
+}
+static mut WAITED_MS_P: u64 = 9;
+
+/// thorough tier: requests of up to 5 s (313 + 4 rounds of at most 16 ms, fully unwound)
+#[kani::proof]
+#[kani::unwind(330)]
+#[kani::stub(crate::net::EventLoops::wait_event, wait_event_long_stub)]
+fn c14_poll_up_to_5s() {
+    let t: c_int = kani::any();
+    kani::assume(t > 143 && t <= 5_000);
+    unsafe { WAITED_MS_P = 0; }
+    let nio: NioPollSyscall<NothingReady> = NioPollSyscall::default();
+    let r = nio.poll(None, std::ptr::null_mut(), 0, t);
+    kani::assert(r == 0, "C14.poll_times_out_with_0");
+    kani::assert(unsafe { WAITED_MS_P } == t as u64, "C14.poll_waits_exactly_the_requested_milliseconds");
+    kani::assert(!unsafe { INNER_TIMEOUT_NONZERO }, "C14.poll_never_blocks_the_thread_in_the_kernel");
+    kani::cover!(t == 5_000, "C14.cover_poll_5s");
+    kani::cover!(t == 144, "C14.cover_poll_144ms");
+}
